@@ -78,6 +78,9 @@ def gen_cases(seed, n_grammars, n_strings, gen_kwargs=None, all_offsets=True, ma
     return out
 
 
+CASE_BUDGET_S = 5.0   # CPU seconds for one request on a <= 10 character input
+
+
 class CaseBudgetExceeded(BaseException):
     pass
 
@@ -125,9 +128,9 @@ def eval_py(P, mode, gcases, text_route=False):
         for s, i in cases:
             if build_exc is None:
                 n_out = len(case_lines(mode, s, i))
-                pys = with_budget(20.0, lambda: py_outcomes(P, mode, rules[0], s, i), ["exc:no-result-within-20s-cpu"] * n_out)
-                if pys[0].startswith("exc:no-result"):
-                    build_exc = pys[0]   # do not spend the budget again on this grammar
+                pys = with_budget(CASE_BUDGET_S, lambda: py_outcomes(P, mode, rules[0], s, i), ["slow:no-result-within-budget"] * n_out)
+                if pys[0].startswith("slow:"):
+                    build_exc = "slow:skipped-after-slow-case"   # do not spend the budget again on this grammar
             else:
                 pys = [build_exc] * len(case_lines(mode, s, i))
             for line, py in zip(case_lines(mode, s, i), pys):
@@ -151,10 +154,18 @@ def run(ctx, P, mode, n_grammars, n_strings, seed, gen_kwargs=None, all_offsets=
     expected = [exp for _, exp in evald]
     outs = lib.run_driver_parallel(blocks)
     disagreements = []
+    slow = []
     nontrivial = set()
     for gi, (exp, out) in enumerate(zip(expected, outs)):
         assert out[0] == "grammar-ok", (out[0], blocks[gi][:3])
         for (s, i, line, py), ln in zip(exp, out[1:]):
+            if py.startswith("slow:"):
+                # the real code did not answer within the CPU budget: a matter for C12 (work bound), see
+                # known finding F14; not comparable here
+                stats["slow_cases_skipped"] += 1
+                if py == "slow:no-result-within-budget" and len(slow) < 20:
+                    slow.append({"grammar": grammars[gi], "source": [ord(c) for c in s], "source_repr": repr(s), "offset": i, "query": line})
+                continue
             stats["cases"] += 1
             stats["py_" + outcome_class(py)] += 1
             e = lib.ends_of(py) if mode != "parse" else None
@@ -177,7 +188,7 @@ def run(ctx, P, mode, n_grammars, n_strings, seed, gen_kwargs=None, all_offsets=
                     })
     stats["distinct_nontrivial"] = len(nontrivial)
     stats["grammars"] = n_grammars
-    return {"stats": dict(stats), "operator_mix": dict(opmix),
+    return {"stats": dict(stats), "operator_mix": dict(opmix), "slow": slow,
             "samples": sample_cases(grammars, expected)}, disagreements
 
 
